@@ -107,7 +107,10 @@ def small_messages(M):
         h.serialize() + M.GetBlocksMessage([b"\x01" * 32]).serialize(),
         h.serialize() + M.PeersMessage([M.Peer(5, IPv6Address("::ffff:1.2.3.4"), 2412)]).serialize(),
         h.serialize() + M.InventoryMessage([M.InventoryItem(M.DATA_BLOCK, b"\x09" * 32)]).serialize(),
+        # well-formed messages the node does not serve: the handler refuses them (the connection is dropped at that message)
+        h.serialize() + M.GetDataMessage(M.DATA_TRANSACTION, b"\x08" * 32).serialize(),
     ]
+UNSERVED = 6        # index of the first message in small_messages() whose handling ends the connection
 
 
 def corruptions(frames, k, kind):
@@ -292,6 +295,14 @@ def run_node(res, tier, seed):
                 if rnd.random() < 0.5:
                     kind = "none"
             res.count("node_stream_size:" + size)
+            unserved_at = None
+            if size != "burst" and rnd.random() < 0.3:
+                # a well-formed request the node does not serve sits in the middle of the stream: everything up to and including
+                # it is handled exactly once, then the connection is dropped -- under every fragmentation
+                unserved_at = rnd.randrange(len(idx))
+                idx = list(idx)
+                idx[unserved_at] = UNSERVED
+                res.count("node_streams_with_an_unserved_request")
             outcomes = []
             for trial in range(3):
                 net = simnet.Net()
@@ -300,6 +311,8 @@ def run_node(res, tier, seed):
                 frames = [R.frame(M.MessageHeader(1, 1, 0, 1).serialize() + w.hello().serialize())] + [R.frame(sm[i]) for i in idx]
                 stream = b"".join(frames) if kind == "none" else corruptions(frames, 1 + k % (len(frames) - 1), kind)
                 exp, trig = expected(M, stream)
+                if unserved_at is not None and len(exp) > unserved_at + 1:
+                    exp, trig = exp[:unserved_at + 2], ("unserved", unserved_at + 1)       # greeting + messages up to the unserved one
                 del log[:]
                 w.send_raw(stream)
                 r = None if trial == 0 else rnd
